@@ -124,6 +124,62 @@ pub fn scale_family(with_long_names: bool) -> ListSpace {
     }
 }
 
+pub const SORTED_RUN_SIZES: [usize; 7] = [16, 17, 32, 33, 64, 65, 100];
+
+/// MS-S (f) sorted runs with one irregular entry: one obfuscated method with N entries whose ranges ascend and are
+/// disjoint (entry i covers lines 4i+1..4i+2) - the shape on which an implementation may switch to a binary search
+/// or a line index - plus ONE further entry, at every position (for N > 33: a fixed selection of positions), that
+/// breaks the regularity: an inverted range, an inverted range reaching far back, a range enclosing the next
+/// three, a range enclosing everything, an entry without range, a 0:0 entry, a duplicate range (inline pair) and a
+/// range that starts like its predecessor but ends earlier. All lines 0..=4N+20 are queried (Q(M)).
+pub fn sorted_run_family() -> ListSpace {
+    let mut files: Vec<(Vec<Line>, Term)> = Vec::new();
+    for &n in &SORTED_RUN_SIZES {
+        let positions: Vec<usize> = if n <= 33 {
+            (0..=n).collect()
+        } else {
+            let mut v = vec![0, 1, 2, n / 4, n / 2 - 1, n / 2, n / 2 + 1, 3 * n / 4, n - 2, n - 1, n];
+            v.extend((0..n).step_by(8));
+            v.sort();
+            v.dedup();
+            v
+        };
+        for &p in &positions {
+            let p4 = 4 * p as u64;
+            let kinds: [(Option<(u64, u64)>, Orig); 8] = [
+                (Some((p4.max(3), p4.max(3) - 2)), Orig::S(7000)),      // inverted, a line lies strictly between end and start
+                (Some((p4 + 1, 3)), Orig::SE(7000, 7001)),             // inverted, reaching far back
+                (Some((p4.max(1), p4 + 14)), Orig::SE(7000, 7014)),    // encloses the next three
+                (Some((p4.max(1), 4 * n as u64 + 9)), Orig::S(7000)),  // encloses everything behind it
+                (None, Orig::None),                                    // no range: always applies
+                (Some((0, 0)), Orig::SE(0, 0)),                        // 0:0: no usable range
+                (Some((p4 + 1, p4 + 2)), Orig::S(7000)),               // same range as its successor: inline pair
+                (Some((p4.saturating_sub(3).max(1), p4.saturating_sub(3).max(1))), Orig::None), // starts like the predecessor, ends earlier
+            ];
+            for (range, orig) in kinds {
+                let mut f = vec![class("s.Run", "run")];
+                for i in 0..=n {
+                    if i == p {
+                        f.push(method(range, None, "odd", "", orig, "s"));
+                    }
+                    if i < n {
+                        let b = 4 * i as u64;
+                        f.push(method(Some((b + 1, b + 2)), None, leak(&format!("o{}", i)), "", Orig::SE(1000 + b, 1001 + b), "s"));
+                    }
+                }
+                files.push((f, Term::Lf));
+            }
+        }
+    }
+    ListSpace {
+        name: "MS-S (f) sorted runs with one irregular entry".into(),
+        note: format!("one obfuscated method with N in {:?} ascending disjoint ranges plus one irregular entry (inverted / inverted far back / enclosing the next three / enclosing everything / no range / 0:0 / duplicate range / same start, earlier end) at every position (N > 33: 11 fixed positions and every 8th)", SORTED_RUN_SIZES),
+        files,
+        wide: false,
+        chunk: Default::default(),
+    }
+}
+
 /// one character per UTF-8 lead-byte class, all 64 continuation bytes (U+0100..U+013F = C4 80 .. C4 BF), and ASCII punctuation
 pub fn special_chars() -> Vec<char> {
     let mut v: Vec<char> = Vec::new();
